@@ -73,12 +73,20 @@ func c16Profile(path string, asArgument bool) string {
 	v := m.YMap()
 	v.Set("targetClass", m.YStr("ex.Test"))
 	if asArgument {
-		v.Set("propertyConstraints", m.YMap().Set("ex.q", m.YMap().Set("lessThanProperty", m.YStr(path))))
+		// next to a constraint of its own, so that the validation is not empty should the comparison get lost
+		v.Set("propertyConstraints", m.YMap().Set("ex.q", m.YMap().Set("minCount", m.YInt(1)).Set(argKeyword(path), m.YStr(path))))
 	} else {
 		v.Set("propertyConstraints", m.YMap().Set(path, m.YMap().Set("minCount", m.YInt(1))))
 	}
 	y.Set("validations", m.YMap().Set("v", v))
 	return y.Print(m.YOpts{Quote: 1})
+}
+
+// argKeyword picks the comparison keyword the string is the operand of (a function of the string, so that a case
+// replays the same way)
+func argKeyword(path string) string {
+	kws := []string{"lessThanProperty", "lessThanOrEqualsToProperty", "equalsToProperty", "disjointWithProperty"}
+	return kws[len(path)%len(kws)]
 }
 
 func decideC16Compile(c c16Case) ev.Verdict {
@@ -272,7 +280,7 @@ func genC16Over(t *rapid.T, tokens []string) c16Case {
 		s = strings.Join(toks, "")
 	}
 	via := "compile"
-	if rapid.IntRange(0, 4).Draw(t, "asArg") == 0 {
+	if rapid.IntRange(0, 2).Draw(t, "asArg") == 0 {
 		via = "compile-argument"
 	}
 	return c16Case{Text: s, Via: via, Origin: fmt.Sprintf("%q + %d edits", origin, k)}
